@@ -28,13 +28,19 @@ MUT = {"and": ["nand", "or", "nor", "xor", "xnor"], "nand": ["and", "or", "xnor"
 def bounds(tier):
     q = tier == "quick"
     return {"c0": [[2, 2, None], [1, 2, None]] if q else [[2, 2, None], [1, 2, None], [3, 2, None], [2, 3, ("and", "xor", "not")]], "c1_small": [2, 1],
-            "feedthrough": [2, 1] if q else [2, 2]}
+            "feedthrough": [2, 1] if q else [2, 2], "wide": 50 if q else 130, "history": [2, 2] if q else [2, 3]}
 
 
 def jobs(tier, seed):
     n = 31 if tier == "quick" else 96
     js = [{"sub": "pairs", "chunk": i, "of": n} for i in range(n)]
     js.append({"sub": "pairs", "chunk": 0, "of": n, "hashseed": 1 + seed % 1000, "primary": False})
+    b = bounds(tier)
+    nw = 6 if tier == "quick" else 16
+    js += [{"sub": "wide", "chunk": i, "of": nw, "max_outputs": b["wide"]} for i in range(nw)]
+    js.append({"sub": "wide", "chunk": 0, "of": nw, "max_outputs": b["wide"], "hashseed": 2 + seed % 1000, "primary": False})
+    nh = 4 if tier == "quick" else 12
+    js += [{"sub": "history", "chunk": i, "of": nh} for i in range(nh)]
     return js
 
 
@@ -93,13 +99,28 @@ def var_table(T, U0, U1):
     return {key: refsim.var_mask(i, k) for i, key in enumerate(order)}, refsim.full_mask(k)
 
 
-def check_miter(acc, d0, d1, sp_arg, ep_arg, label, solve_too=True):
+def check_miter(acc, d0, d1, sp_arg, ep_arg, label, solve_too=True, edit=None, site="miter"):
+    """edit = (which circuit 0/1, node, new type): miter is called once, the circuit object is edited in place with
+    set_type, and the SECOND call on the same objects is the one checked (against the edited circuits)."""
     import circuitgraph as cg
 
-    case = {"kind": "miter", "c0": d0, "c1": d1, "startpoints": sp_arg, "endpoints": ep_arg, "c1_label": label}
+    case = {"kind": "miter", "c0": d0, "c1": d1, "startpoints": sp_arg, "endpoints": ep_arg, "c1_label": label,
+            "edit": edit, "site": site}
     c0 = space.build(d0)
     c1 = space.build(d1) if d1 is not None else None
     e1 = c1 if c1 is not None else c0
+    if edit is not None:
+        kw0 = {}
+        if sp_arg:
+            kw0["startpoints"] = set(sp_arg)
+        if ep_arg:
+            kw0["endpoints"] = set(ep_arg)
+        try:
+            cg.tx.miter(c0, c1, **kw0) if c1 is not None else cg.tx.miter(c0, **kw0)
+            (c0 if edit[0] == 0 else e1).set_type(edit[1], edit[2])
+        except Exception as e:  # noqa: BLE001
+            acc.violation(site, f"miter-raises:{common.exc_name(e)}", case, repr(e))
+            return None
     in0, in1 = set(c0.inputs()), set(e1.inputs())
     out0 = {n for n in c0.graph.nodes if c0.graph.nodes[n].get("output")}
     out1 = {n for n in e1.graph.nodes if e1.graph.nodes[n].get("output")}
@@ -129,17 +150,17 @@ def check_miter(acc, d0, d1, sp_arg, ep_arg, label, solve_too=True):
             # an earlier call with the SAME argument objects (circuits, startpoint / endpoint sets) must not matter
             cg.tx.miter(c0, c1, **kw) if c1 is not None else cg.tx.miter(c0, **kw)
             if (sp_arg and kw["startpoints"] != set(sp_arg)) or (ep_arg and kw["endpoints"] != set(ep_arg)):
-                acc.violation("miter", "argument-set-modified", case, f"startpoints/endpoints argument changed to {kw}")
+                acc.violation(site, "argument-set-modified", case, f"startpoints/endpoints argument changed to {kw}")
                 return None
         m = cg.tx.miter(c0, c1, **kw) if c1 is not None else cg.tx.miter(c0, **kw)
     except Exception as e:  # noqa: BLE001
-        acc.violation("miter", f"miter-raises:{common.exc_name(e)}", case, repr(e))
+        acc.violation(site, f"miter-raises:{common.exc_name(e)}", case, repr(e))
         return None
     if set(m.inputs()) != set(T):
-        acc.violation("miter", "wrong-inputs", case, f"inputs {sorted(m.inputs())}, tied startpoints {T}")
+        acc.violation(site, "wrong-inputs", case, f"inputs {sorted(m.inputs())}, tied startpoints {T}")
         return None
     if set(m.outputs()) != {"sat"}:
-        acc.violation("miter", "wrong-outputs", case, f"outputs {sorted(m.outputs())}")
+        acc.violation(site, "wrong-outputs", case, f"outputs {sorted(m.outputs())}")
         return None
     am = {n: (var[("t", n)], 0) for n in T}
     am.update({f"c0_{n}": (var[("0", n)], 0) for n in U0})
@@ -148,14 +169,14 @@ def check_miter(acc, d0, d1, sp_arg, ep_arg, label, solve_too=True):
         vm = refsim.evaluate(m.graph, am, full)
         got, gx = vm["sat"]
     except (refsim.RefError, KeyError) as e:
-        acc.violation("miter", "miter-unevaluable", case, repr(e))
+        acc.violation(site, "miter-unevaluable", case, repr(e))
         return None
     acc.observe(hex(want))
     acc.outcome("equal" if want == 0 else "always-differ" if want == full else "sometimes-differ")
     if gx or got != want:
         diff = got ^ want
         j = (diff & -diff).bit_length() - 1 if diff else -1
-        acc.violation("miter", "sat-table-wrong", case, f"sat is {(got >> j) & 1} at valuation index {j} of {sorted(var)}")
+        acc.violation(site, "sat-table-wrong", case, f"sat is {(got >> j) & 1} at valuation index {j} of {sorted(var)}")
         return want
     if solve_too:
         for pol in (("first",), ("last",)):
@@ -164,14 +185,14 @@ def check_miter(acc, d0, d1, sp_arg, ep_arg, label, solve_too=True):
             try:
                 r = cg.sat.solve(m, {"sat": True})
             except Exception as e:  # noqa: BLE001
-                acc.violation("miter", f"solve-raises:{common.exc_name(e)}", case, repr(e))
+                acc.violation(site, f"solve-raises:{common.exc_name(e)}", case, repr(e))
                 continue
             finally:
                 satref.set_policy(("first",))
             if (r is False) != (want == 0):
-                acc.violation("miter", "solve-verdict-wrong", case, f"solve -> {r is not False}, circuits differ -> {want != 0}")
+                acc.violation(site, "solve-verdict-wrong", case, f"solve -> {r is not False}, circuits differ -> {want != 0}")
             elif r is not False and not r.get("sat"):
-                acc.violation("miter", "solve-model-sat-false", case, str(r))
+                acc.violation(site, "solve-model-sat-false", case, str(r))
     nt = want not in (0, full) or (want == 0 and label not in ("omitted", "copy"))
     return nt
 
@@ -193,10 +214,73 @@ def c0_space(tier):
         yield space.to_desc(I, gates, outputs="all", name="c0")
 
 
+WIDE_TYPES = ("and", "or", "xor", "nand", "nor", "xnor")
+
+
+def wide_desc(n, flip=None, name="c0"):
+    """n outputs o0..o{n-1} over inputs a, b (o_i = T_i(a, b), T cycling); `flip` replaces one output's type by its complement."""
+    comp = {"and": "nand", "nand": "and", "or": "nor", "nor": "or", "xor": "xnor", "xnor": "xor"}
+    nodes = [["a", "input", [], False], ["b", "input", [], False]]
+    for i in range(n):
+        t = WIDE_TYPES[i % len(WIDE_TYPES)]
+        nodes.append([f"o{i}", comp[t] if i == flip else t, ["a", "b"], True])
+    return {"name": name, "nodes": nodes}
+
+
+def run_wide(job, acc):
+    """Many compared endpoints: for every n up to the bound and every single endpoint k, a c1 that differs from c0
+    at endpoint k only (for both values of every input) - the difference must reach `sat` whatever n and k are."""
+    top = job["max_outputs"]
+    cases = [(n, k) for n in range(1, top + 1) for k in [None] + list(range(n))]
+    for _idx, (n, k) in space.chunk(iter(cases), job["chunk"], job["of"]):
+        acc.states += 1
+        d0 = wide_desc(n)
+        d1 = wide_desc(n, flip=k, name="c1")
+        nt = check_miter(acc, d0, d1, None, None, f"wide:{n}:{k}", solve_too=(k is None or n % 8 in (0, 1)), site="wide")
+        if k is not None and n > 1:
+            # the same through an explicit endpoints argument that leaves one endpoint out
+            eps = [f"o{i}" for i in range(n) if i != (k + 1) % n]
+            check_miter(acc, d0, d1, None, eps, f"wide-ep:{n}:{k}", solve_too=False, site="wide")
+        if nt or k is not None:
+            acc.nontrivial += 1
+    acc.sample({"max_outputs": top})
+
+
+def run_history(job, acc):
+    """call - edit in place - call: miter(c0, c1) on two circuit objects, set_type on one gate of one of them, then
+    miter(c0, c1) again on the same objects; the second result must describe the edited circuits."""
+    b = bounds(job["tier"])
+    I, G = b["history"]
+    descs = [space.to_desc(I, g, outputs="gates", name="c0") for g in space.circuits(I, G, max_arity=2, min_gates=1)]
+    for _idx, d0 in space.chunk(iter(descs), job["chunk"], job["of"]):
+        acc.states += 1
+        nt_any = False
+        for which in (0, 1):
+            for n, t, fi, _o in d0["nodes"]:
+                for t2 in MUT.get(t, []):
+                    if t2 in ("buf", "not") and len(fi) != 1:
+                        continue
+                    for d1, label in ((dict(d0, name="c1"), "copy"), (None, "omitted")):
+                        if d1 is None and which == 1:
+                            continue
+                        nt = check_miter(acc, d0, d1, None, None, f"hist-{label}", solve_too=True,
+                                         edit=[which, n, t2], site="history")
+                        nt_any = nt_any or bool(nt)
+        if nt_any:
+            acc.nontrivial += 1
+        acc.sample({"c0": d0})
+
+
 def run(job):
     common.setup_paths()
     acc = Acc(job)
     tier = job["tier"]
+    if job.get("sub") == "wide":
+        run_wide(job, acc)
+        return acc.result()
+    if job.get("sub") == "history":
+        run_history(job, acc)
+        return acc.result()
     full = tier != "quick"
     I, G = bounds(tier)["c1_small"]
     small = [space.to_desc(I, g, outputs="gates", name="c1") for g in space.circuits(I, G, min_gates=1)]
@@ -226,5 +310,6 @@ def run(job):
 def replay(case, job):
     common.setup_paths()
     acc = Acc(job)
-    check_miter(acc, case["c0"], case["c1"], case["startpoints"], case["endpoints"], case.get("c1_label", "?"))
+    check_miter(acc, case["c0"], case["c1"], case["startpoints"], case["endpoints"], case.get("c1_label", "?"),
+                edit=case.get("edit"), site=case.get("site", "miter"))
     return acc.result()
